@@ -128,6 +128,12 @@ func VH_C15_overlay() {
 		if v.Bool("dst-unrelated") {
 			m.MkFile(dst+"/t/z", []byte("z"), 0600, 2, 2, 9000000000)
 		}
+		if dx := vh_findEntry(m.Snapshot(dst), "t/x"); dx != nil && dx.Kind == m.KFile && v.Bool("dst-x-has-other-name") {
+			// the colliding destination file has a second name the source never mentions: replacing
+			// t/x must not write through the shared inode
+			m.MkLink(dst+"/t/x", dst+"/t/zz-other-name")
+			v.Cover("hardlinked-obstacle")
+		}
 		m.SetMtime(dst+"/t", 6000000000)
 	}
 	dirContents, always := v.Bool("dir-contents"), v.Bool("always-replace")
